@@ -515,12 +515,17 @@ fn ignore_file_decision(lines: &[String], base: &[&str], path: &[&str], is_dir: 
 /// excludes everything below it.  `only`: restrict to these ignore-file directories (used to
 /// describe the narrower lookup of known finding KF8).
 fn ignored_by_styluaignore(world: &World, top: &str, path: &str, only: Option<&[String]>) -> bool {
+    ignored_entry(world, top, path, only, false)
+}
+
+/// `leaf_is_dir`: the last component of `path` is a directory.
+pub fn ignored_entry(world: &World, top: &str, path: &str, only: Option<&[String]>, leaf_is_dir: bool) -> bool {
     let comps: Vec<&str> = path.split('/').filter(|s| !s.is_empty()).collect();
     let topc: Vec<&str> = top.split('/').filter(|s| !s.is_empty()).collect();
     // every prefix longer than `top`
     for end in (topc.len() + 1)..=comps.len() {
         let prefix = &comps[..end];
-        let is_dir = end < comps.len();
+        let is_dir = end < comps.len() || leaf_is_dir;
         // ignore files from the deepest directory containing the prefix up to `top`
         let mut decided = None;
         let mut d = end - 1;
@@ -598,6 +603,12 @@ pub struct Selection {
     pub kf7_candidates: BTreeSet<String>,
     /// KF8: explicit paths under --respect-ignores that only a non-nearest ignore file excludes
     pub kf8_candidates: BTreeSet<String>,
+    /// KF9: files below a directory argument (other than `.`) for which an ignore file above
+    /// that directory holds a pattern containing a slash — the walker matches such patterns
+    /// against a mangled path, so the file's fate is a known finding either way
+    pub kf9_candidates: BTreeSet<String>,
+    /// the invocation is outside the fragment the model is defined on (reason)
+    pub ambiguous: Option<String>,
     /// stdin requested
     pub stdin: bool,
 }
@@ -618,8 +629,36 @@ fn kf8_dirs(world: &World, path: &str) -> Vec<String> {
     }
 }
 
+/// A negated pattern that names a file lying under an excluded directory: git says it cannot
+/// be re-included, the explicit-path check of the CLI re-includes it; the generated fragment
+/// keeps clear of it (DESIGN.md §6.4: "`!name.lua` for a name not under an ignored directory").
+fn negation_under_excluded_dir(world: &World) -> Option<String> {
+    let negs: Vec<String> = world
+        .files
+        .iter()
+        .filter(|(k, _)| k.ends_with(".styluaignore"))
+        .flat_map(|(_, b)| ignore_lines(b))
+        .filter_map(|l| l.strip_prefix('!').map(|s| s.to_string()))
+        .collect();
+    if negs.is_empty() {
+        return None;
+    }
+    for f in world.files.keys() {
+        let name = file_name(f);
+        if !negs.iter().any(|n| gi_match(n, &[name], false)) {
+            continue;
+        }
+        if let Some(dir) = parent_of(f) {
+            if dir.len() > world.cwd.len() && ignored_entry(world, &world.cwd, &dir, None, true) {
+                return Some(format!("negated pattern names {f}, which lies under an excluded directory"));
+            }
+        }
+    }
+    None
+}
+
 pub fn select(world: &World, opts: &Opts) -> Selection {
-    let mut sel = Selection::default();
+    let mut sel = Selection { ambiguous: negation_under_excluded_dir(world), ..Default::default() };
     for arg in &opts.files {
         if arg == "-" {
             sel.stdin = true;
@@ -647,7 +686,35 @@ pub fn select(world: &World, opts: &Opts) -> Selection {
             sel.selected.insert(p);
         } else if dir_exists(world, &p) {
             // directory traversal
+            if p != world.cwd && ignored_entry(world, &world.cwd, &p, None, true) {
+                sel.ambiguous = Some(format!("directory argument {arg} is itself excluded by an ignore rule"));
+            }
+            let root_hidden = p != world.cwd
+                && p.strip_prefix(&world.cwd).unwrap_or(&p).split('/').any(|c| c.starts_with('.') && c.len() > 1);
+            if root_hidden {
+                sel.ambiguous = Some(format!("directory argument {arg} is hidden"));
+            }
+            let slash_pattern_above = p != world.cwd && {
+                // ignore files in cwd ..= parent(p)
+                let mut found = false;
+                let mut cur = parent_of(&p);
+                while let Some(d) = cur {
+                    if let Some(b) = world.files.get(&join(&d, ".styluaignore")) {
+                        if ignore_lines(b).iter().any(|l| l.trim_start_matches('!').trim_end_matches('/').contains('/')) {
+                            found = true;
+                        }
+                    }
+                    if d == world.cwd {
+                        break;
+                    }
+                    cur = parent_of(&d);
+                }
+                found
+            };
             for f in files_under(world, &p) {
+                if slash_pattern_above {
+                    sel.kf9_candidates.insert(f.clone());
+                }
                 let name = file_name(f);
                 if name == ".styluaignore" {
                     // an ignore file is never a Lua file; fall through to the glob test
